@@ -29,7 +29,7 @@ def plan(ctx):
     import planlib as P
     shards = []
     k = P.per_interp_shards(ctx)
-    n = 64 if ctx.tier == "quick" else 640
+    n = 128 if ctx.tier == "quick" else 800
     for v in ctx.producers:
         for i in range(k):
             shards.append({"interp": v, "label": "C16:%s#%d" % (v, i), "tier": ctx.tier, "seed": ctx.seed, "shard": i,
@@ -63,6 +63,10 @@ def invocations(seed, n, pyver):
     # every single flag and the empty set on a fixed program, then random subsets x programs x source options
     for fl in [[]] + [[f] for f in FLAGS] + [["--dis", "--dis-after"], ["--json", "--no-normalize"], FLAGS]:
         out.append({"kind": "single", "via": "-c", "program": PROGRAMS[4], "flags": fl})
+    import c16_programs
+    for k, prog in enumerate(c16_programs.TEXT_HAZARDS):
+        for via in ("-c", "file", "-e"):
+            out.append({"kind": "single", "via": via, "program": prog, "flags": [["--json"], [], ["--no-normalize", "--json"]][(k + len(via)) % 3]})
     i = 0
     while len(out) < n:
         via = rng.choice(["file", "-c", "-e", "-m", "-c", "file"])
